@@ -39,6 +39,18 @@ CLAIMS.update({
  "C19": ("proof", "Verus proves the real call_lib handler (whole operand stack, in order, unchanged, any kinds; stack cleared; names required) and the routing of library requests in process_jump_request / process_library_jump_request over assumed libloading contracts.", "5.C19", TECH_V,
          "libloading and the dylib ABI assumed; Function::run's JumpRequest arm not yet covered"),
 })
+CLAIMS.update({
+ "C06": ("proof", "Kani proves, for every operator and kind pair over the full operand domain, that the real folder module (number.rs string_arithmetic, macros expanded by rustc inside the Kani build) yields the kind and value of the exact-value spec the run-time operators are proved against in C05, and rejects exactly when the run time fails; Verus proves Number::negate keeps kind and toggles sign.", "5.C06", TECH_K + "; " + TECH_V,
+         "numerals abstracted to their value (String -> value-carrying shim); machine * / % abstracted to uninterpreted deterministic operations shared with the spec; the walker Expr::try_constexpr_eval is not under contract"),
+ "C08": ("proof", "Verus proves HeapPrimitive::set writes any value into exactly the field cell / list slot / map key the pointer denotes, and that `is` on objects compares identity tokens; Kani proves both operator tables of bin_op_assign compute `x op v` with the current value as left operand.", "5.C08", TECH_V + "; " + TECH_K,
+         "gc cell semantics assumed; make_object / call_object / ld_self handle routing not yet under contract"),
+ "C10": ("proof", "Verus proves, per write form and for every parse tree/context (pest API and scope lookups abstract): Ident const-flag propagation (wrap_in_callback, clone_with_type, mark_const); the previous declaration handed to the const test is the lookup over all blocks of the function (or the captured scopes for modify); Parser::assignment's const/type test; `+=`-family and `?=` (incl. elements/fields rooted at a const) in Expr::for_type; reuse as a `from` loop counter.", "5.C10", TECH_V,
+         "index/field `=` (Parser::reassignment), unpacking, class/import idents are not yet under contract; scope push/pop discipline assumed"),
+ "C13": ("proof", "Verus proves the list method arms of BuiltInFunction::run (len, reverse, remove incl. range failure, push, join, index_of, clear, clone) and list equality against the sequence model with sharing made explicit (a handle denotes a heap cell; clone allocates a fresh cell), plus writes through element pointers (HeapPrimitive::set).", "5.C13", TECH_V,
+         "gc/RefCell/std::Vec semantics assumed; map methods, index read, map/filter bridges and composition over operation histories not covered"),
+ "C16": ("proof", "Panic-freedom of the parts function contracts can reach: Kani proves the constant folder never panics on literal operands (all operators, kind pairs, values); Verus proves number_from_string, the usize conversion of literals and scopes_since_loop free of panics (every unwrap/expect/unreachable!/slice/subtraction is an obligation). Known finding D25 (empty fixed-shape list index) is reported as such. pest, recursion depth and untranslated AST builders are NOT decided.", "5.C16", TECH_K + "; " + TECH_V,
+         "claimed only for the listed helper functions; totality over arbitrary source text is not decided"),
+})
 PENDING = {}
 props = [json.loads(l)["id"] for l in (V / "properties.jsonl").read_text().splitlines() if l.strip()]
 checks = []
